@@ -143,7 +143,9 @@ UNJUDGED = {
   "LuminanceGain": {"true"}, "Opacity": {"true"}, "Shear": {"true"},  # bool is a numbers.Number in Python
   "FontFamily": {"ff_empty", "ff_list"},
   "Disparity": set(), "LinePadding": {"len_pct", "len_em"},  # unit restrictions of ebutts:linePadding: judged only as valid/unjudged
-  "Extent": {"extent_em", "extent_swapped"}, "Origin": {"origin_em"}, "Position": {"pos_em"},
+  # doc/data_model.md: "Extent, origin and position lengths can be expressed in c, %, rh, rw and px units" - em is
+  # therefore judged invalid; which of rw / rh goes with which axis is not documented and stays unjudged
+  "Extent": {"extent_swapped"}, "Origin": set(), "Position": set(),
 }
 
 
